@@ -33,7 +33,7 @@ func (rs *runState) writeEvidence(exit int) {
 			continue
 		}
 		counts[t.Status]++
-		if t.Status == Realised {
+		if t.Status == Realised || (t.Status == Diverged && len(t.Events) > 0) {
 			realised = append(realised, t)
 		}
 	}
@@ -90,6 +90,7 @@ func (rs *runState) writeEvidence(exit int) {
 		"behaviours_driven":             len(rs.traces),
 		"realised":                      counts[Realised],
 		"unrealisable":                  counts[Unrealisable],
+		"diverged_but_judged":           counts[Diverged],
 		"inconclusive":                  counts[Inconclusive],
 		"model_runs":                    models,
 		"generation_runs":               gens,
